@@ -152,7 +152,7 @@ def gen_molecule(rng, ref, origin, chrom, same_start=False, max_frags=6, force_r
         x = rng.random()
         if x < 0.25:
             f = {'form': 'r1none', 'r1': r1}
-        elif x < 0.30 and not same_start and allow_unmapped:
+        elif x < 0.30 and allow_unmapped:
             f = {'form': 'r2unmapped', 'r1': r1}       # half-mapped pair: the unmapped mate covers nothing
         if nomd:
             for mt in (f.get('r1'), f.get('r2')):
@@ -417,6 +417,8 @@ def run_cli(env, emit, mols, no_source, with_ref, tid0, tag, cap=None, radius=No
     for i, mol in enumerate(mols):
         e = base_event(env.ref, mol, via, None, sites[i], None if cap is None else min(cap, len(mol['frags'])), cap, env.frag_sites(mol))
         e['radius'] = 0 if radius is None else int(radius)
+        # the other molecules of the same BAM file (a command-line failure can be caused by any of them): needed for --replay
+        e['bam_mols'] = [mm for j, mm in enumerate(mols) if j != i]
         e['tid'] = tid0 + i
         e['with_ref'] = bool(with_ref)
         if raised:
@@ -453,7 +455,7 @@ def main():
                 if e['via'] in ('api', 'api_hist', 'crd'):
                     run_api(env, emit, [(mol, None if e['maxN'] < 0 else e['maxN'], cap, e.get('hist_k'), e.get('wp'), e.get('merge', False))], 1, 'replay')
                 else:
-                    run_cli(env, emit, [mol], e['via'] == 'cli_nosrc', e.get('with_ref', True), 1, 'replay', cap, e.get('radius') or None,
+                    run_cli(env, emit, [mol] + e.get('bam_mols', []), e['via'] == 'cli_nosrc', e.get('with_ref', True), 1, 'replay', cap, e.get('radius') or None,
                             via_label=e['via'] if e['via'] == 'cli_halfmapped' else None)
                 return
             tid = 1
@@ -487,7 +489,7 @@ def main():
                 for _ in range(rng.randint(1, 6)):
                     chrom = rng.choice([c for c, _ in molgen.CONTIGS])
                     site[chrom] += rng.randint(3000, 9000)
-                    mols.append(gen_molecule(rng, env.ref, site[chrom], chrom, same_start=(radius is None), max_frags=4, allow_unmapped=False))
+                    mols.append(gen_molecule(rng, env.ref, site[chrom], chrom, same_start=(radius is None), max_frags=4))
                 if rng.random() < 0.5:
                     # a second cell with a molecule at exactly the same place and with the same UMI (equal keys but for the sample)
                     twin = json.loads(json.dumps(mols[0]))
@@ -518,7 +520,8 @@ def main():
                 tid, hung = run_cli(env, emit, mols, no_source=(k % 2 == 1), with_ref=True, tid0=tid, tag='c%d' % k, cap=cap, radius=radius)
                 if hung:        # every further run would only wait for the timeout again
                     break
-            # observation only (NOTE): a BAM that also holds a half-mapped pair (second mate unmapped, placed at its mate's position)
+            # a BAM that certainly holds a half-mapped pair (second mate unmapped, placed at its mate's position): every molecule with a
+            # mapped fragment must still get its records (D151: the run used to abort with ValueError)
             mols = [gen_molecule(rng, env.ref, 4000, 'chr1', same_start=True, max_frags=2, allow_unmapped=False),
                     gen_molecule(rng, env.ref, 9000, 'chr1', same_start=True, max_frags=1, allow_unmapped=False)]
             mols[1]['frags'][0] = {'form': 'r2unmapped', 'r1': mols[1]['frags'][0]['r1']}
